@@ -306,6 +306,20 @@ def _gen_cases(tier):
         out.append(("special:" + name, t))
     for name, t in escaping_terms():
         out.append((name, t))
+    # runs of two to four identical single-character tokens (the shapes the token-merging passes look for: blanks, primes, dots, digits,
+    # letters, bars, dashes) in front of a leaf, a non-leaf element or nothing, and after nothing, a leaf or a non-leaf element
+    from terms import mi, mn, mo, mtext, row, el
+    toks = [("mi_", lambda: mi("_")), ("mo_", lambda: mo("_")), ("nbsp", lambda: mtext("\u00a0")), ("prime", lambda: mo("\u2032")), ("apos", lambda: mo("'")), ("dot", lambda: mo(".")),
+            ("digit", lambda: mn("1")), ("letter", lambda: mi("x")), ("bar", lambda: mo("|")), ("minus", lambda: mo("-")), ("eq", lambda: mo("=")), ("text", lambda: mtext("a")),
+            ("comma", lambda: mo(",")), ("bang", lambda: mo("!")), ("mi-dots", lambda: mi("."))]
+    after = [("end", lambda: []), ("leaf", lambda: [mi("y")]), ("frac", lambda: [el("mfrac", mn("1"), mn("2"))]), ("sup", lambda: [el("msup", mi("y"), mn("2"))]),
+             ("sqrt", lambda: [el("msqrt", mi("y"))]), ("row", lambda: [row(mi("a"), mo("+"), mi("b"))])]
+    before = [("start", lambda: []), ("leaf", lambda: [mn("7"), mo("=")]), ("frac", lambda: [el("mfrac", mn("3"), mn("4"))])]
+    for tn, tk in toks:
+        for n in (2, 3, 4):
+            for bn, bf in before:
+                for an, af in after:
+                    out.append((f"run:{tn}x{n}:{bn}:{an}", row(*(bf() + [tk() for _ in range(n)] + af()))))
     # level 1: one deviation at every position
     dev_shapes = terms.spine_shapes(1) if tier == "quick" else terms.spine_shapes(2)
     for sh in dev_shapes:
